@@ -1,0 +1,14 @@
+//go:build verif
+
+package types
+
+// Contracts for the deductive verifier in /verif (govc). Comment-only; compiled only with -tags verif.
+
+//@ contract (Config).IsAllowedRelayer
+//@   abstract
+//@   pure
+//@   invariant #1 none_so_far: forall j int :: 0 <= j && j <= rangeindex ==> str(relayer) != bech32dec(c.AllowedRelayers[j])
+//@   invariant #1 idx: 0 - 1 <= rangeindex && rangeindex < len(c.AllowedRelayers)
+//@   ensures empty_allows_all: len(c.AllowedRelayers) == 0 ==> result
+//@   ensures listed_only: len(c.AllowedRelayers) > 0 && result ==> exists j int :: 0 <= j && j < len(c.AllowedRelayers) && str(relayer) == bech32dec(c.AllowedRelayers[j])
+//@   ensures listed_allowed: forall j int :: 0 <= j && j < len(c.AllowedRelayers) && str(relayer) == bech32dec(c.AllowedRelayers[j]) ==> result
